@@ -71,6 +71,10 @@ fn fresh_process_solo(i: usize) -> Option<String> {
     let exe = std::path::PathBuf::from("/verif/.target/release/nlmc");
     let out = std::process::Command::new(exe).arg("solo16").arg(i.to_string()).output().ok()?;
     if !out.status.success() {
+        use std::os::unix::process::ExitStatusExt;
+        if let Some(sig) = out.status.signal() {
+            return Some(format!("CRASH: the process evaluating it alone was killed by signal {sig}"));
+        }
         return None;
     }
     Some(String::from_utf8_lossy(&out.stdout).trim_end().to_string())
@@ -198,6 +202,11 @@ fn run(sh: &mut Shard) {
     let mut solos: Vec<String> = Vec::new();
     for i in 0..BATCH.len() {
         match fresh_process_solo(i) {
+            Some(s) if s.starts_with("CRASH") => {
+                sh.mine();
+                sh.violation("solo", json!({"history": [BATCH[i]]}), format!("{:?}: {s}", BATCH[i]));
+                return;
+            }
             Some(s) => solos.push(s),
             None => {
                 sh.machinery(format!("cannot obtain the fresh-process outcome of batch program {i}"));
